@@ -207,14 +207,11 @@ func c14Len(t *tape.Tape, label string) int {
 	}
 }
 
-// c14Rare: inputs that run into the two known framing defects (a write of more than 65535 bytes;
-// an MTU-sized reply through the mux's write buffer) are generated rarely, so that the first three
-// violations of a worker do not shadow the rest of its exploration.
-func c14Rare(c *core.Ctx) (oversize, mtuReply int) {
-	if c.Tier == "thorough" {
-		return 90000, 4000
-	}
-	return 6000, 250
+// c14Rare: how often (1 in n) a write of more than 65535 bytes and an MTU-sized reply through the mux's
+// write buffer are generated. Both inputs used to run into framing defects (fixed, see
+// known_findings.json) and were kept rare so that they did not shadow the rest of the exploration.
+func c14Rare(_ *core.Ctx) (oversize, mtuReply int) {
+	return 12, 3
 }
 
 func runC14(c *core.Ctx) {
@@ -326,6 +323,7 @@ func c14Direct(c *core.Ctx, garbage bool) {
 	var stream []byte
 	if !garbage {
 		n := t.Range(1, 6, "npackets")
+		wfaulted := false
 		for i := 0; i < n && !c.Failed(); i++ {
 			ln := c14Len(t, "len")
 			if ln == 0 {
@@ -335,11 +333,17 @@ func c14Direct(c *core.Ctx, garbage bool) {
 				c.Probe("len-65535")
 			}
 			pkt := tsPayload(salt, i, ln)
+			faultAt := -1
+			if t.Bias(1, 12, "wfault") { // the stream fails while this frame is being written
+				faultAt = t.Range(0, 1+ln, "wfault.at")
+				w.FailWriteAt(int64(len(stream)+faultAt), errors.New("simstream: injected write error"))
+				c.Fault("write-error-mid-frame")
+			}
 			var wn int
 			var werr error
 			c.Step++
 			done, pv := tsCall(func() { wn, werr = ice.VerifWriteStreamingPacket(w, pkt) })
-			c.Logf("write #%d len=%d -> n=%d err=%v", i, ln, wn, werr)
+			c.Logf("write #%d len=%d fault=%d -> n=%d err=%v", i, ln, faultAt, wn, werr)
 			if pv != "" {
 				c.Failf("C14/panic", "writeStreamingPacket(len=%d) panicked: %s", ln, pv)
 				return
@@ -347,6 +351,20 @@ func c14Direct(c *core.Ctx, garbage bool) {
 			if !done {
 				c.Failf("C14/write-blocked", "writeStreamingPacket(len=%d) did not return on a stream with unbounded room", ln)
 				return
+			}
+			if faultAt >= 0 {
+				wire := r.Buffered()
+				full := append(append([]byte(nil), stream...), tsEnc(pkt)...)
+				if werr == nil {
+					c.Failf("C14/write-error-swallowed", "the stream failed after %d of %d bytes of frame #%d, writeStreamingPacket returned n=%d err=nil", len(wire)-len(stream), 2+ln, i, wn)
+					return
+				}
+				if !bytes.HasPrefix(full, wire) {
+					c.Failf("C14/writer-wire-format", "after the failed write of packet #%d the wire is not a prefix of the RFC 4571 encoding (first difference at byte %d)", i, c14FirstDiff(wire, full))
+					return
+				}
+				stream, wfaulted = wire, true
+				break
 			}
 			if werr != nil || wn != ln {
 				c.Failf("C14/valid-write-refused", "writeStreamingPacket(len=%d) returned n=%d err=%v", ln, wn, werr)
@@ -361,7 +379,7 @@ func c14Direct(c *core.Ctx, garbage bool) {
 			}
 			stream = want
 		}
-		if t.Bias(1, 8, "garbagetail") {
+		if t.Bias(1, 8, "garbagetail") && !wfaulted {
 			tail := t.Bytes(t.Range(1, 40, "taillen"), "tail")
 			_, _ = w.Write(tail)
 			stream = append(stream, tail...)
